@@ -133,7 +133,9 @@ func (s *PackScanner) GetByOffset(offset uint64) (plumbing.EncodedObject, error)
 
 // getObject retrieves object metadata from the pack at the given offset.
 func (s *PackScanner) getObject(h plumbing.Hash, offset uint64) (plumbing.EncodedObject, error) {
-	if int(offset+1) >= len(s.packMmap) {
+	// Compare as uint64: an idx may carry any 64-bit offset, and int(offset+1)
+	// wraps to a negative (or zero) value for offsets >= 1<<63 - 1.
+	if n := uint64(len(s.packMmap)); n == 0 || offset >= n-1 {
 		return nil, ErrOffsetNotFound
 	}
 
